@@ -60,10 +60,22 @@ def arm_table(F, b):
                 if gi not in region or not dominates(b, tb, gi):
                     continue
                 rv = discr_def(b, gi, gt)
-                if rv and rv.get("k") == "binop" and rv["op"] in ("Gt", "Ne", "Lt", "Ge"):
+                if rv and rv.get("k") == "binop" and rv["op"] in ("Gt", "Ne", "Lt", "Ge", "Eq", "Le"):
                     k = [op_const(rv["a"]), op_const(rv["b"])]
                     zero = any((x or {}).get("int") == 0 for x in k)
-                    guards.append("%s-vs-%s" % ("occurrences" if (_from_field(b, rv["a"], obs_l, "occurrences") or _from_field(b, rv["b"], obs_l, "occurrences")) else "?", "0" if zero else "?"))
+                    occ_a = _from_field(b, rv["a"], obs_l, "occurrences")
+                    occ_b = _from_field(b, rv["b"], obs_l, "occurrences")
+                    g_ = "%s-vs-%s" % ("occurrences" if (occ_a or occ_b) else "?", "0" if zero else "?")
+                    # which outcome means `occurrences != 0`, and is the recording call on that side? (`if occ > 0 { record }` and
+                    # `if occ == 0 { continue } record` are the same guard)
+                    if zero and (occ_a or occ_b) and gt.get("ty") == "bool":
+                        zero_b = (k[1] or {}).get("int") == 0
+                        nz_true = rv["op"] in (("Gt", "Ne") if zero_b else ("Lt", "Ne"))
+                        nz_false = rv["op"] in (("Eq", "Le") if zero_b else ("Eq", "Ge"))
+                        site_on_true = gt["otherwise"] in yes
+                        if not ((nz_true and site_on_true) or (nz_false and not site_on_true)):
+                            g_ = "occurrences-vs-0(records on the zero side)"
+                    guards.append(g_)
                 else:
                     guards.append("other")
             once = c.bb not in b.reachable_after(c.bb, avoid=[i])
@@ -321,6 +333,20 @@ def run(ctx):
         for v, w in want.items():
             ctx.check(t.get(v) == w, "R11.1", key + "#arm-" + v, loc(b),
                       "the %s arm records %s, expected %s: observation counts would not be conserved" % (v, t.get(v), w), str(w))
+        # an observation that records nothing is skipped, it does not end the replay: from inside the loop over the observations the
+        # function is left only through the loop's own exit (the iterator is exhausted), never by a `return` / `break` in an arm
+        heads = [c for c in b.calls() if c.is_trait_method("Iterator", "next") and c.bb in b.reachable_after(c.bb)]
+        sws = [i for i in b.live_blocks() if b.term(i)["k"] == "switch" and any(
+            s_["k"] == "assign" and s_["rv"]["k"] == "discr" and s_["rv"].get("adt", "").endswith("value::Observation") for s_ in b.stmts(i))]
+        for h in heads:
+            inloop = [i for i in sws if i in b.reachable_after(h.bb) and h.bb in b.reachable(i)]
+            if not inloop:
+                continue
+            escapes = [r for i in inloop for r in b.return_blocks() if r in b.reachable(i, avoid=[h.bb])]
+            ctx.check(not escapes, "R11.1", key + "#unusable-observation-is-skipped-not-terminal", loc(b, inloop[0]),
+                      "an arm of the per-observation match can leave the function (return / break) instead of going on with the next observation: "
+                      "every later observation of the same written value is dropped, so the counts are not conserved",
+                      "every arm goes back to the loop head")
     for d in ydec:
         cb = d["closure"]
         key = fnkey(cb)
